@@ -58,20 +58,22 @@ def text_node():
 
 
 def seq_strategy(callable_names, depth, in_template, invoke=None,
-                 max_items=3, pfn=True, links=True):
+                 max_items=3, pfn=True, links=True, nowiki=True, pads=None):
     return _seq_strategy(tuple(callable_names), depth, in_template, invoke,
-                         max_items, pfn, links)
+                         max_items, pfn, links, nowiki,
+                         tuple(pads) if pads else None)
 
 
 @functools.lru_cache(maxsize=None)
 def _seq_strategy(callable_names, depth, in_template, invoke, max_items, pfn,
-                  links):
+                  links, nowiki=True, padset=None):
     """Strategy for a seq whose calls go only to callable_names (plus missing
     names).  depth bounds construct nesting."""
     if depth <= 0:
         return st.lists(text_node(), min_size=0, max_size=2)
     sub = seq_strategy(callable_names, depth - 1, in_template, invoke,
-                       max_items=2, pfn=pfn, links=links)
+                       max_items=2, pfn=pfn, links=links, nowiki=nowiki,
+                       pads=padset)
     opt_sub = st.none() | sub
     items = [text_node(), text_node()]
     if in_template:
@@ -92,7 +94,8 @@ def _seq_strategy(callable_names, depth, in_template, invoke, max_items, pfn,
             )
         )
     names = list(callable_names) + MISSING_NAMES[:1]
-    pads = st.lists(st.sampled_from(PADS), min_size=4, max_size=4)
+    pads = st.lists(st.sampled_from(list(padset) if padset else PADS),
+                    min_size=4, max_size=4)
     arg = st.one_of(
         sub.map(lambda s: ["pos", s]),
         sub.map(lambda s: ["pos", s]),
@@ -126,14 +129,16 @@ def _seq_strategy(callable_names, depth, in_template, invoke, max_items, pfn,
                 st.lists(case, max_size=4), tail).map(
                 lambda t: ["SW", t[0], t[1], t[2]])
         )
-    items.append(atom().map(lambda s: ["N", s + "{{x|y}}[[z]]"]))
+    if nowiki:
+        items.append(atom().map(lambda s: ["N", s + "{{x|y}}[[z]]"]))
     # links: every part starts with a word (empty [[ ]] links are escaped on
     # purpose by the package and are not part of the transclusion rules)
     # the target is a single word (no newline: MediaWiki does not accept one
     # before the pipe); the label contains no further link.
     if links:
         nolink = seq_strategy(callable_names, depth - 1, in_template, invoke,
-                              max_items=2, pfn=pfn, links=False)
+                              max_items=2, pfn=pfn, links=False,
+                              nowiki=nowiki, pads=padset)
         target = st.sampled_from(WORDS).map(lambda w: [["T", w]])
         label = st.tuples(st.sampled_from(WORDS), nolink).map(
             lambda t: [["T", t[0]]] + list(t[1]))
@@ -244,16 +249,20 @@ def wrap_body(seq, wrapper, junk):
     raise ValueError(wrapper)
 
 
-def library(n_max=5, depth=3, dag=True, invoke=None, pfn=True):
+def library(n_max=5, depth=3, dag=True, invoke=None, pfn=True, nowiki=True,
+            pads=None):
     """Strategy for {name: {"body": seq, "wrapper": w, "junk": j}}.  With
     dag=True template i calls only templates j > i.  A drawn count truncates
     the library, so calls to the dropped names exercise missing templates."""
-    return _library(n_max, depth, dag, invoke, pfn)
+    return _library(n_max, depth, dag, invoke, pfn, nowiki,
+                    tuple(pads) if pads else None)
 
 
-def _arglist(names, in_template):
-    sub = seq_strategy(names, 1, in_template, None, max_items=2)
-    pads = st.lists(st.sampled_from(PADS), min_size=4, max_size=4)
+def _arglist(names, in_template, nowiki=True, padset=None, pfn=True):
+    sub = seq_strategy(names, 1, in_template, None, max_items=2,
+                       nowiki=nowiki, pads=padset, pfn=pfn)
+    pads = st.lists(st.sampled_from(list(padset) if padset else PADS),
+                    min_size=4, max_size=4)
     arg = st.one_of(
         sub.map(lambda s: ["pos", s]),
         st.tuples(st.sampled_from(["k", "key", "n m", "1", "2", "3"]), sub,
@@ -263,17 +272,17 @@ def _arglist(names, in_template):
 
 
 @functools.lru_cache(maxsize=None)
-def _library(n_max, depth, dag, invoke, pfn):
+def _library(n_max, depth, dag, invoke, pfn, nowiki=True, padset=None):
     names = TEMPLATE_NAMES[:n_max]
     entries = []
     for i, nm in enumerate(names):
         callees = names[i + 1:] if dag else names
         body = seq_strategy(callees, depth - 1, True, invoke, pfn=pfn,
-                            max_items=4)
+                            max_items=4, nowiki=nowiki, pads=padset)
         first = st.none() | st.sampled_from(["{| x", "* s", ": c", "#n", ";d"])
         # chain link: with probability 1/2 the body also calls the next
         # template, so that nesting depth >= 2 is common, not accidental
-        chain = st.none() | _arglist(callees[1:], True)
+        chain = st.none() | _arglist(callees[1:], True, nowiki, padset, pfn)
         entries.append(
             st.tuples(st.just(nm), body, first, st.sampled_from(WRAPPERS),
                       st.sampled_from(JUNK), chain, st.integers(0, 4))
@@ -297,11 +306,14 @@ def _mk_lib(t):
     return lib
 
 
-def case_strategy(depth=4, n_max=5, dag=True, invoke=None, pfn=True):
+def case_strategy(depth=4, n_max=5, dag=True, invoke=None, pfn=True,
+                  nowiki=True, pads=None):
     """(library, page seq)."""
     names = TEMPLATE_NAMES[:n_max]
-    page = seq_strategy(names, depth - 1, False, invoke, max_items=4, pfn=pfn)
-    entry = st.none() | _arglist((), False)
+    page = seq_strategy(names, depth - 1, False, invoke, max_items=4, pfn=pfn,
+                        nowiki=nowiki, pads=pads)
+    entry = st.none() | _arglist((), False, nowiki,
+                                 tuple(pads) if pads else None, pfn)
 
     def mk(t):
         lib, page, ent = t
@@ -310,8 +322,8 @@ def case_strategy(depth=4, n_max=5, dag=True, invoke=None, pfn=True):
             page.append(["C", next(iter(lib)), ent])
         return lib, page
 
-    return st.tuples(library(n_max, depth - 1, dag, invoke, pfn), page,
-                     entry).map(mk)
+    return st.tuples(library(n_max, depth - 1, dag, invoke, pfn, nowiki, pads),
+                     page, entry).map(mk)
 
 
 def install(ctx, lib, flags=None):
